@@ -26,6 +26,8 @@ void fail(const std::string& class_key, const std::string& detail);   // oracle 
 void observe(const std::string& outcome);                              // canonical outcome (distinct ones are counted)
 void state_hash(uint64_t h);                                           // optional: fold harness-visible state into the state hash
 bool active();                                                          // true inside a managed execution
+void quiesce();                                                         // "a slow caller": returns when no other thread can run any more (all blocked,
+                                                                        // waiting with a timeout, or finished) - lets a pipeline fill up before the next call
 int  thread_id();                                                       // ordinal of the calling managed thread (0 = body thread)
 uint64_t timeouts_taken();                                              // timeout transitions so far in this execution
 inline void point(const char* tag) { osmium_verif_sched_point(tag); }
